@@ -3,7 +3,7 @@ from . import inbox_common as IC
 from .inbox_common import TRUSTED_BASE, ASSUMPTIONS
 
 COQ_FILES = IC.COQ_FILES
-THEOREMS = ["C01_conservation", "C01_program_order", "C01_exactly_once_in_order"]
+THEOREMS = ["C01_conservation", "C01_conservation_pill_free", "C01_program_order", "C01_program_order_delivered", "C01_exactly_once_in_order", "C01_delivered_permutation", "C0123_oracle_sound", "C14_ring_refines_fifo"]
 RULE = ("configurations (senders x numbered messages, capacity 1-2, Start racing or not, optional pill) of the real "
         "actor/inbox.go run under the deterministic scheduler: all schedules by DFS with visited-state pruning for the small "
         "ones, seeded random walks for the larger; each kept execution is replayed step by step in the Coq model and every "
